@@ -99,7 +99,9 @@ pub fn scenario(seed: u64, pool: &RecordPool, rep: &mut Report) {
     let mut refused = 0u64;
     let mut pending_seen = 0u64;
     for step in 0..nops {
-        let id = *rng.pick(&all_ids);
+        // one operation in six is aimed at a node that is waiting in a pending slot right now
+        let waiting: Vec<Id> = table.buckets_iter().filter_map(|b| b.pending().map(|p| p.value().node_id().raw())).filter(|i| rec_of.contains_key(i)).collect();
+        let id = if !waiting.is_empty() && rng.chance(1, 6) { *rng.pick(&waiting) } else { *rng.pick(&all_ids) };
         let k = rec_of[&id];
         let s = pick_subnet(&mut rng);
         let value = pool.variants[k][s].clone();
